@@ -77,6 +77,50 @@ type Entry struct {
 	Seeds [][]byte
 	Text  bool // input is text: mutations use text-specific classes too
 	Small bool // small parser: exhaustively fed every 1- and 2-byte input
+	Large bool // corpus of large crafted packets: only seeds, truncations and sparse corruption
+}
+
+// pointerAmplification builds DNS-style packets (NBNS when nb, else LLMNR) in which one record
+// hides a long run of labels in its RDATA and many later records name themselves with a
+// compression pointer into that run: a decoder that follows such pointers without the
+// 255-octet name limit allocates (records x run length).
+func pointerAmplification(nb bool) [][]byte {
+	var out [][]byte
+	for _, total := range []int{2000, 16000, 60000} {
+		run := total / 2
+		var labels []byte
+		if nb {
+			// an NBNS name is a 32-byte first-level label followed by scope labels
+			labels = append([]byte{0x20}, []byte("CACACACACACACACACACACACACACACACA")...)
+		}
+		for len(labels)+64 < run {
+			labels = append(labels, 63)
+			for i := 0; i < 63; i++ {
+				labels = append(labels, byte('a'+i%26))
+			}
+		}
+		labels = append(labels, 0)
+		first := []byte{1, 'x', 0}
+		if nb {
+			first = append(append([]byte{0x20}, []byte("FHEPFCELFDFEEBFEEJEPEOCACACACACA")...), 0)
+		}
+		n := (total - run - 40) / 12
+		if n > 0xFFFF {
+			n = 0xFFFF
+		}
+		p := []byte{0, 7, 0x85, 0, 0, 0, byte((n + 1) >> 8), byte(n + 1), 0, 0, 0, 0}
+		p = append(p, first...)
+		p = append(p, 0, 0x20, 0, 1, 0, 0, 0, 60, byte(len(labels)>>8), byte(len(labels)))
+		ptr := len(p)
+		p = append(p, labels...)
+		for i := 0; i < n; i++ {
+			p = append(p, 0xC0|byte(ptr>>8), byte(ptr), 0, 0x20, 0, 1, 0, 0, 0, 60, 0, 0)
+		}
+		if ptr < 0x4000 {
+			out = append(out, p)
+		}
+	}
+	return out
 }
 
 func le16(v int) []byte { return []byte{byte(v), byte(v >> 8)} }
@@ -225,7 +269,14 @@ func buildEntries() []Entry {
 	ch1 := ntlmChallenge("DOMAIN", av, 0xE28A8215, true)
 	ch2 := ntlmChallenge("", nil, 0x00000201, false)
 	ch3 := ntlmChallenge("D", av[:1], 0x00808205, false)
-	add("ntlm.ParseChallengeMessage", [][]byte{ch1, ch2, ch3}, func(in []byte) { ntlm.ParseChallengeMessage(in) })
+	// well-formed lists whose well-known pairs have unusual value lengths (a server chooses them)
+	var oddChals [][]byte
+	for _, n := range []int{0, 1, 4, 7, 9, 16} {
+		for _, id := range []int{7, 6, 1, 2, 9, 10} {
+			oddChals = append(oddChals, ntlmChallenge("D", [][2]any{{2, utf16.EncodeUTF16LE("D")}, {id, make([]byte, n)}}, 0xE28A8215, true))
+		}
+	}
+	add("ntlm.ParseChallengeMessage", append([][]byte{ch1, ch2, ch3}, oddChals[:6]...), func(in []byte) { ntlm.ParseChallengeMessage(in) })
 	ti := ch1[56+12:]
 	add("ntlm.ParseTargetInfo", [][]byte{ti, {0, 0, 0, 0}}, func(in []byte) { ntlm.ParseTargetInfo(in) })
 	tokI := must(spnego.CreateNegTokenInit([]byte("NTLMSSP\x00\x01\x00\x00\x00abcdefgh")))
@@ -234,7 +285,11 @@ func buildEntries() []Entry {
 	tokR2 := must(spnego.CreateNegTokenResp(spnego.AcceptIncomplete, spnego.NtlmOID, ch3))
 	add("spnego.ExtractNTLMToken", nonNil(tokI, tokIL, tokR), func(in []byte) { spnego.ExtractNTLMToken(in) })
 	add("spnego.ParseNegTokenResp", nonNil(tokR, tokR2), func(in []byte) { spnego.ParseNegTokenResp(in) })
-	add("spnego.AuthContext.ProcessChallengeToken", nonNil(tokR, tokR2), func(in []byte) {
+	var oddToks [][]byte
+	for _, c := range oddChals {
+		oddToks = append(oddToks, must(spnego.CreateNegTokenResp(spnego.AcceptIncomplete, spnego.NtlmOID, c)))
+	}
+	add("spnego.AuthContext.ProcessChallengeToken", append(nonNil(tokR, tokR2), nonNil(oddToks...)...), func(in []byte) {
 		ctx := spnego.NewAuthContext(spnego.AuthTypeNTLM, "DOM", "user", "pass", "WS", true)
 		ctx.ProcessChallengeToken(in)
 	})
@@ -252,6 +307,7 @@ func buildEntries() []Entry {
 	// hand-made compressed response: question "a.bc", answer name = pointer to offset 12
 	comp := []byte{0, 9, 0x80, 0, 0, 1, 0, 1, 0, 0, 0, 0, 1, 'a', 2, 'b', 'c', 0, 0, 1, 0, 1, 0xC0, 12, 0, 1, 0, 1, 0, 0, 0, 30, 0, 4, 1, 2, 3, 4}
 	add("llmnr.DecodeMessage", nonNil(lb, qb, comp), func(in []byte) { llmnr.DecodeMessage(in) })
+	es = append(es, Entry{Name: "llmnr.DecodeMessage.large", Seeds: pointerAmplification(false), Call: func(in []byte) { llmnr.DecodeMessage(in) }, Large: true})
 	off := func(in []byte) (int, []byte) {
 		if len(in) == 0 {
 			return 0, in
@@ -269,6 +325,7 @@ func buildEntries() []Entry {
 		Additional: []nbtns.NBTNSResourceRecord{{Name: &nbtns.NetBIOSName{Name: "WORKSTATION", ScopeID: "corp.example"}, Type: 0x20, Class: 1, TTL: 300, RDLength: 6, RData: []byte{0, 0, 10, 0, 0, 1}}}}
 	var pkb []byte
 	mon.Guard(func() { pkb = must(pk.Marshal()) })
+	es = append(es, Entry{Name: "nbtns.NBTNSPacket.Unmarshal.large", Seeds: pointerAmplification(true), Call: func(in []byte) { (&nbtns.NBTNSPacket{}).Unmarshal(in) }, Large: true})
 	add("nbtns.NBTNSPacket.Unmarshal", nonNil(pkb, append([]byte{0, 1, 0x01, 0x10, 0, 1, 0, 0, 0, 0, 0, 0, 0x20}, append([]byte("FHEPFCELFDFEEBFEEJEPEOCACACACACA"), 0, 0, 0x20, 0, 1)...)), func(in []byte) { (&nbtns.NBTNSPacket{}).Unmarshal(in) })
 	es = append(es, Entry{Name: "nbtns.FirstLevelDecode", Text: true, Small: true, Seeds: strs("FHEPFCELFDFEEBFEEJEPEOCACACACACA", "FHEPFCELFDFEEBFEEJEPEOCACACACACA.corp.example", ""),
 		Call: func(in []byte) { nbtns.FirstLevelDecode(string(in)) }})
